@@ -46,12 +46,13 @@ import tempfile
 import weakref
 
 STREAMS = ['endpoints-parse', 'lifecycle-close-everywhere', 'lifecycle-random', 'lifecycle-reactions',
-           'lifecycle-extended', 'lifecycle-reconnect', 'connect-through-handshake']
+           'lifecycle-extended', 'lifecycle-reconnect', 'lifecycle-two-live', 'connect-through-handshake']
 THEOREMS = ['connect_fires_once', 'first_reachable_in_order', 'lost_fails_everything_once', 'cancelled_only_by_caller',
             'every_connect_tries_in_written_order', 'endpoint_prefix_table',
             'address_list_in_listed_order', 'written_addresses_tried_in_order',
-            'connect_concludes_through_handshake', 'refused_authentication_fails_connect',
-            'rejected_by_every_mechanism_fails_connect']
+            'connect_fired_iff_terminated_through_handshake', 'refused_authentication_fails_connect',
+            'rejected_by_every_mechanism_fails_connect', 'connect_succeeds_when_handshake_completes',
+            'connect_succeeds_against_spec_server']
 TRUSTED_BASE = [
     'Twisted semantics assumed by the model and emulated by the harness: connectionLost is delivered once, no data '
     'after it; transport.loseConnection() is followed by connectionLost(ConnectionDone); an exception escaping '
@@ -69,7 +70,7 @@ TRUSTED_BASE = [
 ASSUMPTIONS = [
     'connect-through-handshake (C09 x C07, Client/ConnectAuth.lean): after transport.loseConnection() the transport delivers '
     'no further dataReceived; that the reactor then calls connectionLost is NOT assumed by the model - it is the step '
-    '`lost`, and a run without it is a run in which nothing fires (stated next to connect_concludes_through_handshake); '
+    '`lost`, and a run without it is a run in which nothing fires (stated next to connect_fired_iff_terminated_through_handshake); '
     'the binary framing / decoding of the Hello answer is a parameter of the model (owned by C04, C03, C08)',
     'Twisted calls connectionLost exactly once per connection and delivers nothing afterwards',
     'the Hello reply of a bus carries the unique name as one string (a reply without a body leaves busName None)',
@@ -358,6 +359,8 @@ class Run:
         self.cancelled_in_loss = set()
         self.deferreds = {}                # issue index -> the Deferred the caller was handed
         self.cancelling = None             # issue index of the call whose Deferred the caller is cancelling right now
+        self.siblings = []                 # the other connections alive in the same process (lifecycle-two-live)
+        self.cross = []                    # effects a step on ANOTHER connection had on this one
 
     # -- helpers ---------------------------------------------------------------------------------------------
     def new_cb(self, late=False):
@@ -609,7 +612,7 @@ class Run:
         self.new_dcs = []
         self.dc_idx = {}            # id(DelayedCall) -> (DelayedCall, issue index of the call it belongs to)
         self.reactor.on_call_later = self.new_dcs.append
-        self.reactor.on_cancel = lambda dc: self.fx.append('tc:%d' % self.dc_idx.get(id(dc), (None, -1))[1])
+        self.reactor.on_cancel = self._on_cancel
         for n in M.reactor_names:
             setattr(M.client, n, self.reactor)
         try:
@@ -623,6 +626,31 @@ class Run:
         if self.n_attempts_seen == 0:
             self.phase = 'exhausted'
             self.concluded_by = 'no-address'
+
+    def _on_cancel(self, dc):
+        """A DelayedCall was cancelled: it is reported by the connection whose call it belongs to."""
+        for r in [self] + self.siblings:
+            if id(dc) in r.dc_idx:
+                r.fx.append('tc:%d' % r.dc_idx[id(dc)][1])
+                return
+        self.fx.append('tc:-1')
+
+    def activate(self):
+        """This connection is the one the next step acts on (several live connections share one reactor)."""
+        self.reactor.on_attempt = self.note_attempts
+        self.reactor.on_call_later = self.new_dcs.append
+        self.reactor.on_cancel = self._on_cancel
+        for n in self.M.reactor_names:
+            setattr(self.M.client, n, self.reactor)
+
+    def op_foreign_reply(self, st):
+        """A method return that carries the serial of a call of ANOTHER connection of this process arrives here: it answers
+        nothing on this connection (serials are per process, so the number is in nobody else's table)."""
+        M = self.M
+        sib = [r for r in self.siblings if r.idx_serial.get(st['i']) is not None]
+        if not sib:
+            return
+        self.deliver(M.message.MethodReturnMessage(sib[0].idx_serial[st['i']]).rawMessage)
 
     def op_af(self, st):
         M = self.M
@@ -913,6 +941,8 @@ class Run:
     def timer_indices(self):
         out = []
         for dc in self.reactor.getDelayedCalls():
+            if id(dc) not in self.dc_idx and any(id(dc) in r.dc_idx for r in self.siblings):
+                continue            # the timer of a call of another live connection of this process
             out.append(self.dc_idx.get(id(dc), (None, -1))[1])
         return sorted(out)
 
@@ -1044,6 +1074,77 @@ def execute_rounds(M, sc):
     return runs
 
 
+def execute_live(M, sc):
+    """One process, several connections ALIVE AT THE SAME TIME on one reactor: `sc['rounds'][k]` are the steps of connection
+    k, `sc['order']` says whose next step is played.  Around every step the observable effects and the tables of all the
+    OTHER connections are compared: a step on one connection must not touch another one."""
+    known = getattr(M.interface.DBusInterface, 'knownInterfaces', None)
+    saved = dict(known) if isinstance(known, dict) else None
+    saved_reactor = {n: getattr(M.client, n, None) for n in M.reactor_names}
+    reactor = M.ObservedClock()
+    n = len(sc['rounds'])
+    runs = [Run(M, round_scenario(sc, k), reactor=reactor) for k in range(n)]
+    for r in runs:
+        r.siblings = [x for x in runs if x is not r]
+        r.reach = None
+        r.started = False
+        r.after_probe, r.timers_left = [], None
+    pos = [0] * n
+    try:
+        try:
+            for k in sc['order']:
+                run = runs[k]
+                if pos[k] >= len(sc['rounds'][k]) or run.unexpected or run.stalled or run.parse_error is not None:
+                    continue
+                if not run.started:
+                    run.started = True
+                    run.start()
+                    if run.parse_error is not None:
+                        continue
+                run.activate()
+                def snap(y):
+                    y.timers_now = y.timer_indices()
+                    return y.state()
+                others = [(y, len(y.fx), snap(y)) for y in run.siblings if y.started and y.parse_error is None]
+                st = sc['rounds'][k][pos[k]]
+                pos[k] += 1
+                getattr(run, 'op_' + st['op'])(st)
+                for y, nfx, state in others:
+                    after = snap(y)
+                    if len(y.fx) != nfx or after != state:
+                        y.cross.append({'step': dict(st, conn=k), 'on': runs.index(y), 'new_effects': y.fx[nfx:],
+                                        'tables_before': state, 'tables_after': after})
+        except Reach as e:
+            for r in runs:
+                r.reach = str(e)
+        live = [r for r in runs if r.started and r.parse_error is None and r.reach is None]
+        for r in live:
+            r.timers_now = r.timer_indices()
+            r.final = r.state()
+            r.fx_end = list(r.fx)
+            if r.closed:
+                r.timers_left = r.timer_indices()
+        # quiescence: let all virtual time pass ONCE; what a lost connection still does then is its `after_probe`
+        if live:
+            marks = [(r, len(r.fx)) for r in live]
+            exc = live[0].enter(reactor.advance, 10 ** 7)
+            for r, k0 in marks:
+                if r.closed:
+                    r.after_probe = r.fx[k0:] + (['raised ' + repr(exc)] if exc is not None else [])
+    finally:
+        if saved is not None:
+            known.clear()
+            known.update(saved)
+        for nme, v in saved_reactor.items():
+            setattr(M.client, nme, v)
+    out = []
+    for r in runs:
+        if not r.started:
+            break
+        out.append(r)
+    return out
+
+
 # ----------------------------------------------------------------------------------------------------------------
 # tokens for the model
 
@@ -1085,6 +1186,8 @@ def step_tokens(st):
         return ['rp:%d:%d' % (st['i'], 1 if st['ok'] else 0)] + (['cl'] if st.get('lose_inside') else [])
     if op == 'expire':
         return ['ex:%d' % st['i']] + (['cl'] if st.get('lose_inside') else [])
+    if op == 'foreign_reply':
+        return ['rp:9999:1']        # a reply to a serial that is not in this connection's table: nothing
     if op == 'add_match':
         return ['ca:0:n']
     if op == 'signal':
@@ -1779,6 +1882,130 @@ def gen_reconnect(rng, tmp):
     return {'entries': entries, 'address': addr, 'rounds': rounds}
 
 
+class LiveGen:
+    """User operations on SEVERAL ready connections of one process that share the reactor's clock: one ReadyGen per
+    connection, deadlines unique across all of them, and a timer may expire only if it is the earliest live timer of the
+    whole process."""
+
+    def __init__(self, rng, n):
+        self.rng = rng
+        self.gens = [ReadyGen(rng) for _ in range(n)]
+        shared = set()
+        for g in self.gens:
+            g.deadlines = shared
+            g.p_inside = 0.08
+        self.now = 0.0
+        self.alive = [True] * n
+
+    def deadlines_of(self, k):
+        return [c['deadline'] for c in self.gens[k].pending.values() if c['deadline'] is not None]
+
+    def burst(self, k):
+        g = self.gens[k]
+        g.now = self.now
+        return g.burst()
+
+    def step(self, k):
+        g, rng = self.gens[k], self.rng
+        g.now = self.now
+        ops = ['call', 'call', 'call_timed', 'call_timed', 'notify', 'proxy_explicit', 'proxy_introspect', 'cancel_call']
+        if g.pending:
+            ops += ['reply', 'reply']
+        if any(r['alive'] for r in g.proxies.values()):
+            ops += ['proxy_notify', 'drop']
+        mine = self.deadlines_of(k)
+        theirs = [d for j in range(len(self.gens)) if j != k and self.alive[j] for d in self.deadlines_of(j)]
+        if mine and (not theirs or min(mine) < min(theirs)):
+            ops += ['expire', 'expire']
+        out = g.step(force=rng.choice(ops))
+        self.now = max(self.now, g.now)
+        if g.closed:
+            self.alive[k] = False
+        return out
+
+    def lost(self, k):
+        self.alive[k] = False
+
+
+def gen_two_live(rng, tmp):
+    """Two (sometimes three) connections of one process, all READY at the same time, each with calls (with and without a
+    timeout), disconnect callbacks and proxies with callbacks in flight; operations interleaved; then one is lost while the
+    others live on - their calls are answered, their timers expire, a reply carrying a serial of the lost connection
+    arrives -, then the next.  The first connection is the one that was "beside" the later connects."""
+    n = 3 if rng.random() < 0.15 else 2
+    entries, addr = gen_address(rng, tmp, n=rng.choice([1, 1, 2]))
+    lg = LiveGen(rng, n)
+    rounds, order = [[] for _ in range(n)], []
+
+    def add(k, steps):
+        for st in steps:
+            rounds[k].append(st)
+            order.append(k)
+    for k in range(n):
+        _, _, pre = gen_steps(rng, entries, addr, want='ready', ops=False)
+        add(k, pre)
+        add(k, lg.burst(k))
+        if k == 0 and rng.random() < 0.5:
+            for _ in range(rng.randint(1, 4)):
+                add(0, lg.step(0))
+    for _ in range(rng.randint(2, 12)):
+        live = [k for k in range(n) if lg.alive[k]]
+        if not live:
+            break
+        k = rng.choice(live)
+        add(k, lg.step(k))
+    victims = [k for k in range(n) if lg.alive[k]]
+    rng.shuffle(victims)
+    keep = rng.random() < 0.15          # the last one stays alive to the end
+    for pos_, k in enumerate(victims):
+        if keep and pos_ == len(victims) - 1:
+            break
+        add(k, [close_step(rng)])
+        lg.lost(k)
+        for _ in range(rng.randint(0, 5)):
+            live = [j for j in range(n) if lg.alive[j]]
+            if not live:
+                break
+            j = rng.choice(live)
+            if rng.random() < 0.25:
+                add(j, [{'op': 'foreign_reply', 'i': rng.randint(1, 4)}])
+            else:
+                add(j, lg.step(j))
+    return {'entries': entries, 'address': addr, 'rounds': rounds, 'order': order}
+
+
+def two_live_skeletons():
+    """STATE_AUDIT G1, literally: A and B ready in one process; on each two calls (one with a timeout), one connection-level
+    callback, two proxies (explicit / introspected) with a callback each; reply A1; LOSE B; expire A2; a late reply carrying
+    B's serial arrives at A; lose A.  Every pair of reactions for the callbacks; both orders of the losses."""
+    ok = [{'op': 'ac'}, {'op': 'auth', 'hex': (b'OK ' + GUID + b'\r\nAGREE_UNIX_FD\r\n').hex(), 'tok': ['ap', 'ao']},
+          {'op': 'hello', 'ok': True}]
+    entries = [{'kind': 'unix', 'path': '/run/verif-bus-A'}]
+    addr = render_entry(entries[0])
+    out = []
+    for ra, rb in itertools.product(['n', 'c', 'u', 'r', 'p', 'x'], repeat=2):
+        for first in (1, 0):
+            def ops(r, t):
+                return [{'op': 'call', 'timeout': t, 'r': r}, {'op': 'call', 'timeout': None, 'r': r},
+                        {'op': 'notify', 'r': r}, {'op': 'proxy_explicit', 'key': 0, 'form': 'iface'},
+                        {'op': 'proxy_introspect', 'key': 1, 'form': 'none'}, {'op': 'reply', 'i': 3, 'ok': True},
+                        {'op': 'proxy_notify', 'p': 0, 'r': r}, {'op': 'proxy_notify', 'p': 1, 'r': r}]
+            a = ok + ops(ra, 30.0)
+            b = ok + ops(rb, 300.0)
+            order = [0] * len(a) + [1] * len(b)
+            other = 1 - first
+            rounds = [a, b]
+            rounds[other] = rounds[other] + [{'op': 'reply', 'i': 2, 'ok': True}]
+            order.append(other)
+            rounds[first] = rounds[first] + [{'op': 'close', 'reason': 'lost'}]
+            order.append(first)
+            rounds[other] = rounds[other] + [{'op': 'expire', 'i': 1}, {'op': 'foreign_reply', 'i': 1},
+                                             {'op': 'call', 'timeout': 50.0, 'r': 'n'}, {'op': 'close', 'reason': 'done'}]
+            order += [other] * 4
+            out.append({'entries': entries, 'address': addr, 'rounds': rounds, 'order': order})
+    return out
+
+
 def reconnect_skeletons():
     """`A;B` (and `A;B;C`) with every pattern of reachable addresses over three connects of one process."""
     ok = [{'op': 'auth', 'hex': (b'OK ' + GUID + b'\r\n').hex(), 'tok': ['ao']}, {'op': 'hello', 'ok': True}]
@@ -1957,11 +2184,23 @@ def check_rounds(ctx, M, stream, scenarios):
     connect; first of all its attempts must be the listed addresses in listed order, whatever earlier connects did."""
     out = ctx.model([model_line(sc) for sc in scenarios])
     for k, sc in enumerate(scenarios):
-        runs = execute_rounds(M, sc)
+        runs = execute_live(M, sc) if 'order' in sc else execute_rounds(M, sc)
         ctx.impl_trace()
-        ctx.case(stream, sample={'address': sc['address'], 'rounds': sc['rounds']},
+        ctx.case(stream, sample=dict({'address': sc['address'], 'rounds': sc['rounds']},
+                                     **({'order': sc['order']} if 'order' in sc else {})),
                  nontrivial=len(sc['rounds']) > 1 and any(st['op'] == 'ac' for st in sc['rounds'][0]))
         ctx.stat('reconnect:connects=%d' % len(sc['rounds']))
+        if 'order' in sc:
+            ready = [r for r in runs if r.at_loss is not None]
+            ctx.stat('twolive:ready-connections-lost=%d' % len(ready))
+            if len(ready) >= 2:
+                ctx.stat('twolive:both-lost-with-calls=%d' % min(len(r.at_loss['outstanding']) for r in ready))
+            for r in runs:
+                for c in r.cross:
+                    ctx.violation('connection-affected-by-another-connection',
+                                  'a step on connection #%d of the process (%s) changed connection #%d: new effects %r'
+                                  % (c['step']['conn'] + 1, c['step']['op'], c['on'] + 1, c['new_effects']),
+                                  inp=sc, observed=c, expected='no effect on another connection')
         views = out[k].split(' // ') if out is not None and out[k] is not None else None
         for j, run in enumerate(runs):
             rsc = round_scenario(sc, j)
@@ -2018,7 +2257,8 @@ def _run(ctx, M, tmp):
     if life:
         check_scenarios(ctx, M, 'lifecycle-reactions', life)
     if many:
-        check_rounds(ctx, M, 'lifecycle-reconnect', many)
+        check_rounds(ctx, M, 'lifecycle-reconnect', [c for c in many if 'order' not in c])
+        check_rounds(ctx, M, 'lifecycle-two-live', [c for c in many if 'order' in c])
 
     # ---- C09 x C07: one attempt through the real handshake (harness/c09_handshake.py)
     c09_handshake.run_stream(ctx, M, tmp, corpus=cah)
@@ -2069,6 +2309,10 @@ def _run(ctx, M, tmp):
     rec = reconnect_skeletons() + [gen_reconnect(rng, tmp) for _ in range(ctx.scale(quick=150, thorough=4000))]
     check_rounds(ctx, M, 'lifecycle-reconnect', rec)
 
+    # ---- one process, several connections ALIVE at once, each with work in flight; lost one after the other (STATE_AUDIT G1)
+    check_rounds(ctx, M, 'lifecycle-two-live',
+                 two_live_skeletons() + [gen_two_live(rng, tmp) for _ in range(ctx.scale(quick=250, thorough=5000))])
+
     # ---- reactions: every assignment on a fixed skeleton
     skel = gen_reaction_skeletons(quick)
     check_scenarios(ctx, M, 'lifecycle-reactions', skel)
@@ -2082,7 +2326,7 @@ def replay(ctx, data):
     if isinstance(inp, dict) and 'cah' in inp:
         c09_handshake.replay_one(ctx, M, inp)
     elif isinstance(inp, dict) and 'rounds' in inp:
-        check_rounds(ctx, M, 'lifecycle-reconnect', [inp])
+        check_rounds(ctx, M, 'lifecycle-two-live' if 'order' in inp else 'lifecycle-reconnect', [inp])
     elif isinstance(inp, dict) and 'steps' in inp:
         check_scenarios(ctx, M, 'lifecycle-reactions', [inp])
     elif isinstance(inp, dict) and 'addr' in inp:
